@@ -244,3 +244,57 @@ def c12_6(ctx):
     rr = returns_of(g.node)
     if not rr or N(rr[-1].value) != NS('_df_fillna(%s, method=method, axis=axis, limit=limit)' % g.params[0]):
         ctx.fail(g, rr[-1] if rr else g.node, 'df_fillna does not forward method, axis and limit to the lifted worker')
+
+
+@obligation('C12.7', 'TABLES (guards by truth table) + defaults', '_pandas:_nona (edge), remaining branches of _df_fillna, df_fillna defaults, mask2v',
+            "nona with an edge removes only leading (edge=-1) / trailing (edge=1) all-NaN rows by slicing from the first / to the last valid row inclusive; 'ffill_na'/'ffill_0' on a frame fill column by column; axis defaults to 0 (down the time axis)",
+            axioms=('A4',))
+def c12_7(ctx):
+    r = ctx.repo
+    n = r.fn('_pandas:_nona')
+    df = n.params[0]
+    expect_guards(ctx, n, [
+        ('np.isnan(value)', 'mask = np.isnan(%s)' % df, 'NaN is found with isnan'),
+        ('np.isinf(value)', 'mask = np.isinf(%s)' % df, 'inf is found with isinf'),
+        ('edge is None or len(res) == 0 or not is_pd(%s)' % df, 'return res', 'no edge: exactly the non-masked rows'),
+        ('edge == 1', "return df_slice(%s, ub=res.index[-1], openclose='[]')" % df, 'edge=1 cuts only after the last valid row (inclusive)'),
+        ('edge == -1', "return df_slice(%s, lb=res.index[0], openclose='[]')" % df, 'edge=-1 cuts only before the first valid row (inclusive)'),
+    ])
+    ctx.count(1)
+    other = [s for s in ast.walk(n.node) if isinstance(s, ast.Assign) and U(s.targets[0]) == 'mask' and N(s.value) == NS('%s == value' % df)]
+    if not other:
+        ctx.fail(n, n.node, 'a finite value to drop is not found with df == value')
+    f = r.fn('_pandas:_df_fillna')
+    for g in (f, r.fn('_pandas:df_fillna')):
+        ctx.count(1, g.where())
+        d = g.defaults()
+        if const(d.get('axis')) != 0 or const(d.get('limit'), 'X') is not None or const(d.get('method'), 'X') is not None:
+            ctx.fail(g, g.node, '%s defaults are method=%s, axis=%s, limit=%s; expected None, 0, None' % (g.name, U(d.get('method')), U(d.get('axis')), U(d.get('limit'))))
+    loop, m, chain = _method_chain(f)
+    expect_guards(ctx, f, [
+        ("%s == 'pad'" % m, 'res = res.fillna(method=%s, **params)' % m, 'pad'),
+        ('is_date(%s)' % m, 'res = res.ffill(**params)', 'a date method forward-fills up to that date'),
+        ('len(%s.shape) == 1' % f.params[0], 'last_valid = %s.last_valid_index()' % f.params[0], 'ffill_na / ffill_0 on a series'),
+        ('last_valid is not None', 'res = res.ffill(**params)', 'an all-NaN series is left alone'),
+        ('len(res.shape) == 2', 'nonan = nonan.max(axis=1)', 'rows of a frame are kept when any cell has data'),
+        ('is_num(limit) and limit < 0', 'params = dict(limit=abs(limit)) if is_series(%s) else dict(axis=axis, limit=abs(limit))' % f.params[0], 'a negative limit interpolates backward'),
+    ])
+    ctx.count(1)
+    dt_ = [s for s in ast.walk(f.node) if isinstance(s, ast.Assign) and N(s.targets[0]) == NS('res[res.index > %s]' % m)]
+    if not dt_ or 'nan' not in U(dt_[0].value).lower():
+        ctx.fail(f, f.node, 'a date method does not reset the cells strictly after that date to NaN')
+    fr = [s for s in ast.walk(f.node) if isinstance(s, ast.Assign) and 'pd.concat' in U(s.value) and 'iloc[:, i]' in U(s.value)]
+    if not fr or N(fr[0].value) != NS('pd.concat([_df_fillna(res.iloc[:, i], method, **params) for i in range(res.shape[1])], axis=1)'):
+        ctx.fail(f, fr[0] if fr else f.node, "'ffill_na'/'ffill_0' on a frame is not applied column by column and reassembled side by side")
+    ip = [N(s.value) for s in ast.walk(f.node) if isinstance(s, ast.Assign) and 'interpolate' in U(s.value)]
+    if ip != [NS("res.interpolate(method=%s, limit_direction='backward', **params)" % m), NS('res.interpolate(method=%s, **params)' % m)]:
+        ctx.fail(f, f.node, 'other method names are not passed to interpolate (backward for a negative limit): %s' % ip)
+    k = r.fn('_pandas:mask2v')
+    ctx.count(1, k.where())
+    body = [' '.join(U(s).split()) for s in k.body]
+    if body[-3:] != ['res = df.copy()', 'res[mask] = value', 'return res']:
+        ctx.fail(k, k.node, 'mask2v does not write the fill value into the masked cells of a copy: %s' % body[-3:])
+    for c in calls_in(k.node, '_mask'):
+        if [U(a) for a in c.args] != ['df', 'mask']:
+            ctx.fail(k, c, 'mask2v builds the mask as %s' % U(c))
+    expect_guards(ctx, k, [('not is_pd(mask)', 'mask = _mask(df, mask)', 'a value to mask is turned into a boolean mask'), ('not is_bool(mask)', 'mask = _mask(df, mask)', 'scalar case')])
